@@ -98,7 +98,7 @@ Section Good3.
       assert (Hn0 : n0 <= next (hp st)) by apply (g_ext _ _ _ _ G).
       assert (Hname : WF -> a_name a = fst ka).
       { intros W. destruct (Hnm W) as (a2 & E2 & N2). rewrite E in E2. injection E2 as <-. exact N2. }
-      destruct (a_val a) as [t tok|t r|g|gs] eqn:Ev.
+      destruct (a_val a) as [t tok|t r|g|gs|tt0] eqn:Ev.
       - (* shared *)
         unfold ret in H. injection H as <- <-. split; [exact G|]. split; [lia|]. split.
         + right. split; [exact Hold|]. left. exists a. split; [exact E|]. unfold shared_attr. rewrite Ev. exact I.
@@ -125,21 +125,27 @@ Section Good3.
           rewrite (gcanon_le _ _ _ _ _ G1 L) by apply F1. rewrite (C1 W f), (Hname W). reflexivity.
       - bind_as H s1 gs' E1.
         assert (Hgs : Forall (fun g => g < n0) gs).
-        { apply Forall_forall. intros g Hg. apply HL. simpl. rewrite Ev. simpl. exact Hg. }
+        { apply Forall_forall. intros g Hg. apply HL. simpl. rewrite Ev. simpl. rewrite app_nil_r. exact Hg. }
         destruct (mapM_good allow deep h0 rec GR (fun g => g < n0) (proj1 HR)
                     (fun x s s' b Hx Gs Hs => proj2 HR x s s' b Hx Gs Hs)
                     (fun x b s s' Gs Ls HR' => GR_le s s' x b Gs Ls HR')
                     _ _ _ _ Hgs G E1) as [G1 F].
         destruct (good_alloc _ _ _ _ _ _ _ G1 H) as (G' & HF & Hx & Hcell).
-        + simpl. intros y Hy. destruct (Forall2_in_r _ _ _ _ F Hy) as (g0 & _ & [K _]). apply K.
+        + simpl. intros y Hy. rewrite app_nil_r in Hy. destruct (Forall2_in_r _ _ _ _ F Hy) as (g0 & _ & [K _]). apply K.
         + simpl. intros y [].
-        + simpl. intros y Hy. destruct (Forall2_in_r _ _ _ _ F Hy) as (g0 & _ & [K _]). left. apply K.
+        + simpl. intros y Hy. rewrite app_nil_r in Hy. destruct (Forall2_in_r _ _ _ _ F Hy) as (g0 & _ & [K _]). left. apply K.
         + split; [exact G'|]. split; [apply HF|]. split; [left; apply HF|].
           intros W. split; [exists (Att (fst ka) (AGraphs gs') (a_doc a)); split; [exact Hcell|reflexivity]|].
           intros f. unfold acanon. rewrite Hcell, E, Ev. simpl.
           assert (L : le s1 st') by (eapply mono_alloc; exact H).
           rewrite (Hname W). f_equal. apply Forall2_map_eq. eapply Forall2_impl'; [|exact F].
           intros g0 g1 _ _ [K1 K2]. rewrite (gcanon_le _ _ _ _ _ G1 L) by apply K1. apply (K2 W f).
+      - (* a tensor attribute: shared *)
+        unfold ret in H. injection H as <- <-. split; [exact G|]. split; [lia|]. split.
+        + right. split; [exact Hold|]. left. exists a. split; [exact E|]. unfold shared_attr. rewrite Ev. exact I.
+        + intros W. split.
+          * exists a. rewrite (old_cell _ _ _ _ _ G Hold). split; [exact E|apply Hname, W].
+          * intros f. apply (acanon_old _ _ _ Hcl0 _ G). exact Hold.
     Qed.
 
     (* the relation established for a cloned node *)
@@ -253,7 +259,7 @@ Section Good3.
           split; [apply K1|]. split; [left; apply K1|]. intros W v' Hv'. injection Hv' as <-. apply vref_of_vcanon, K3, W.
         - rewrite Esv in Hy. injection Hy as <-. split; [|split].
           + pose proof (g_ext _ _ _ _ G7) as [K1 _]. lia.
-          + right. split; [exact Hv|]. do 3 right. simpl. apply in_or_app. left. unfold K.
+          + right. split; [exact Hv|]. do 3 right. left. simpl. apply in_or_app. left. unfold K.
             apply filter_In. split.
             * apply in_flat_map. exists d. split; [exact Hd|]. unfold dev_ids. apply in_flat_map. exists s.
               split; [exact Hs|]. apply in_oid. exact Esv.
